@@ -25,7 +25,7 @@ def main():
     pid = sys.argv[1]
     src = f"/tmp/seed_out/{pid}"
     meta_in = json.load(open(os.path.join(src, "meta.json"))) if os.path.exists(os.path.join(src, "meta.json")) else {}
-    for extra in ("meta2.json", "meta3.json", "meta4.json"):
+    for extra in ("meta2.json", "meta3.json", "meta4.json", "meta5.json"):
         if os.path.exists(os.path.join(src, extra)):
             m2 = json.load(open(os.path.join(src, extra)))
             meta_in.setdefault("changes", []).extend(m2.get("changes", []))
